@@ -13,6 +13,9 @@ import (
 	authtypes "github.com/cosmos/cosmos-sdk/x/auth/types"
 	banktypes "github.com/cosmos/cosmos-sdk/x/bank/types"
 
+	connecttypes "github.com/skip-mev/connect/v2/pkg/types"
+	oracletypes "github.com/skip-mev/connect/v2/x/oracle/types"
+
 	opchild "github.com/initia-labs/OPinit/x/opchild"
 	opchildtypes "github.com/initia-labs/OPinit/x/opchild/types"
 	ophosttypes "github.com/initia-labs/OPinit/x/ophost/types"
@@ -215,6 +218,7 @@ type c12L2State struct {
 }
 
 type c12L2Sys struct {
+	votes  *c15Sys
 	probes atomic.Int64
 	allow  atomic.Int64
 	deny   atomic.Int64
@@ -241,6 +245,17 @@ func (y *c12L2Sys) Root() *c12L2State {
 	}
 	if err := w.BK.SendCoinsFromModuleToModule(w.Ctx, authtypes.Minter, authtypes.FeeCollectorName, c); err != nil {
 		panic(err)
+	}
+	// currency pairs for the oracle-update probes
+	w.OK.InitGenesis(w.Ctx, oracletypes.GenesisState{CurrencyPairGenesis: []oracletypes.CurrencyPairGenesis{}})
+	for _, p := range c15Pairs {
+		cp, err := connecttypes.CurrencyPairFromString(p)
+		if err != nil {
+			panic(err)
+		}
+		if err := w.OK.CreateCurrencyPair(w.Ctx, cp); err != nil {
+			panic(err)
+		}
 	}
 	return &c12L2State{ctx: w.Ctx, w: w, admin: "admin", execs: []string{"e1"}}
 }
@@ -280,8 +295,9 @@ func (y *c12L2Sys) Letters(s *c12L2State) []engine.Letter {
 }
 
 func c12Info(client string) opchildtypes.BridgeInfo {
-	return opchildtypes.BridgeInfo{BridgeId: 1, BridgeAddr: sdk.AccAddress(ophosttypes.BridgeAddress(1)).String(), L1ChainId: "l1-verif", L1ClientId: client,
-		BridgeConfig: world.BridgeConfig("proposer", "challenger", 10*time.Second)}
+	cfg := world.BridgeConfig("proposer", "challenger", 10*time.Second)
+	cfg.OracleEnabled = true
+	return opchildtypes.BridgeInfo{BridgeId: 1, BridgeAddr: sdk.AccAddress(ophosttypes.BridgeAddress(1)).String(), L1ChainId: "l1-verif", L1ClientId: client, BridgeConfig: cfg}
 }
 
 func (s *c12L2State) anExecutor() string {
@@ -327,6 +343,12 @@ func (y *c12L2Sys) Step(s *c12L2State, l engine.Letter) (*c12L2State, string, *e
 		if res.OK() {
 			i := c12Info(d.client)
 			c.info = &i
+			if d.client != "" {
+				// the L1 light client reports the host validator set (what the IBC hook would do)
+				if err := s.w.K.UpdateHostValidatorSet(ctx, d.client, 10, c15Sets["V(1,1,1)"].proto()); err != nil {
+					return c, "accepted", viol("harness-expectation", "UpdateHostValidatorSet: %v", err)
+				}
+			}
 			return c, "accepted", nil
 		}
 		return c, "rejected", nil
@@ -345,6 +367,25 @@ func (y *c12L2Sys) Step(s *c12L2State, l engine.Letter) (*c12L2State, string, *e
 		return c, "executed", nil
 	}
 	panic("unknown letter")
+}
+
+type c12Pr struct {
+	n   string
+	m   sdk.Msg
+	ok  bool
+	cls bool
+}
+
+// oracleProbe: with a bound L1 client and a recorded host validator set the update carries a fully
+// signed commit (so an executor must succeed); otherwise only the authorization class is probed.
+func (y *c12L2Sys) oracleProbe(s *c12L2State, sender string, isExec bool) c12Pr {
+	if s.info == nil || s.info.L1ClientId == "" {
+		return c12Pr{"UpdateOracle", opchildtypes.NewMsgUpdateOracle(sender, 5, []byte{1, 2, 3}), isExec, true}
+	}
+	cs := &c15State{ctx: s.ctx, w: s.w, set: "V(1,1,1)", hostH: 10, flagOn: true}
+	votes := []c15Vote{{"hv1", shPriceP}, {"hv2", shPriceP}, {"hv3", shPriceQ}}
+	data, _ := y.votes.build(cs, votes, 11, 5_000_000_000)
+	return c12Pr{"UpdateOracle(signed)", opchildtypes.NewMsgUpdateOracle(sender, 11, data), isExec, false}
 }
 
 func (y *c12L2Sys) Check(s *c12L2State) *engine.Violation {
@@ -408,13 +449,7 @@ func (y *c12L2Sys) Check(s *c12L2State) *engine.Violation {
 		dep, _, _ := c06Msg(1, "e1", 0)
 		dep.Sender = a
 		dep.Sequence = next
-		type pr struct {
-			n   string
-			m   sdk.Msg
-			ok  bool
-			cls bool
-		}
-		for _, q := range []pr{
+		for _, q := range []c12Pr{
 			{"ExecuteMessages", em, isAdmin, false},
 			{"AddValidator", addv, isAuth, false},
 			{"RemoveValidator", remv, isAuth, false},
@@ -422,7 +457,7 @@ func (y *c12L2Sys) Check(s *c12L2State) *engine.Violation {
 			{"SpendFeePool", &opchildtypes.MsgSpendFeePool{Authority: a, Recipient: s.addr("stranger"), Amount: sdk.NewCoins(sdk.NewInt64Coin("umin", 1))}, isAuth, false},
 			{"SetBridgeInfo", opchildtypes.NewMsgSetBridgeInfo(a, info), isExec, false},
 			{"FinalizeTokenDeposit", dep, isExec, false},
-			{"UpdateOracle", opchildtypes.NewMsgUpdateOracle(a, 5, []byte{1, 2, 3}), isExec, true},
+			y.oracleProbe(s, a, isExec),
 		} {
 			if v := run(fmt.Sprintf("%s(by=%s)", q.n, sg), q.m, sg, q.ok, q.cls); v != nil {
 				return v
@@ -509,7 +544,7 @@ func init() {
 				return res
 			}
 			res.Absorb("l1", rep)
-			y2 := &c12L2Sys{}
+			y2 := &c12L2Sys{votes: newC15Sys("V(1,1,1)", 0)}
 			rep2, err := engine.Explore[*c12L2State](y2, opts(rc, pick(rc, 5, 6)))
 			if err != nil {
 				res.HarnessErr = err
@@ -521,13 +556,13 @@ func init() {
 				"l2_probes": y2.probes.Load(), "l2_allowed_cells": y2.allow.Load(), "l2_denied_cells": y2.deny.Load()}
 			res.Coverage["alphabet"] = "L1 role rotations: UpdateProposer/UpdateChallenger(b∈{1,2}, to∈{X,X2}, by∈{gov, current holder}); L2: SetAdmin, SetExecutors (both via ExecuteMessages by the current admin), SetBridgeInfo(client id \"\" | set), executor-change plan executed by the real EndBlocker; in every state the matrix (every message type × every signer incl. past holders, both bridges) plus batch and re-pointing probes"
 			res.Coverage["oracle"] = "role table of the property statement evaluated on the model's current holders: allowed ⇒ succeeds (new holder immediately), not allowed ⇒ fails with unchanged digest; the signer read back with GetMsgV1Signers is the authorised account; ExecuteMessages all-or-nothing with authority-only inner signers; SetBridgeInfo: bridge id / address / L1 chain id immutable, L1 client id settable once"
-			res.Assumptions = []string{"UpdateOracle is probed for the authorization class only (non-executor ⇒ unauthorised and unchanged; executor ⇒ not refused as unauthorised); its data path is C15's subject"}
+			res.Assumptions = []string{"UpdateOracle carries a fully signed commit (executor must succeed) in every state where the L1 client id is bound and a host validator set is recorded; in the other states only its authorization class is probed"}
 			res.Require(y1.allow.Load() > 100 && y1.deny.Load() > 100 && y2.allow.Load() > 100 && y2.deny.Load() > 100, "matrix is one-sided")
 			return res
 		},
 		Replay: func(kind string, path []string) ([]string, *engine.Violation, error) {
 			if kind == "l2" {
-				return engine.Replay[*c12L2State](&c12L2Sys{}, path)
+				return engine.Replay[*c12L2State](&c12L2Sys{votes: newC15Sys("V(1,1,1)", 0)}, path)
 			}
 			return engine.Replay[*c12L1State](newC12L1Sys(), path)
 		},
